@@ -119,12 +119,18 @@ def shard(ctx):
         PF = {"params/p.json": json.dumps({"zp": rng.choice([1, 2, 5, "x", "y", True])})} if with_params else {}
         IT = ["-i", "{S}/params/p.json"] if with_params else []
         ctx.res.counts["batches_with_input_parameters"] += 1 if with_params else 0
+        # data files either have distinct names or share one base name in different directories (still different files)
+        same_base = rng.random() < 0.5
+        ctx.res.counts["batches_data_same_base_name"] += 1 if same_base else 0
+
+        def DN(j):
+            return ("g%d/template.json" % j) if same_base else ("d%d.json" % j)
         # ---- singletons (same front end, same file names)
         single_s, single_p, crashed = {}, {}, False
         for i, rt in enumerate(rules):
             for j, dt in enumerate(dtexts):
-                fl = dict(PF, **{"r%d.guard" % i: rt, "d%d.json" % j: dt})
-                a = ["validate", "-r", "{S}/r%d.guard" % i, "-d", "{S}/d%d.json" % j] + IT
+                fl = dict(PF, **{"r%d.guard" % i: rt, "data/" + DN(j): dt})
+                a = ["validate", "-r", "{S}/r%d.guard" % i, "-d", "{S}/data/" + DN(j)] + IT
                 rs = ctx.w.run({"k": "cli", "argv": a + ["--structured", "-S", "none", "-o", "json"], "files": fl})
                 rp = ctx.w.run({"k": "cli", "argv": a + ["-S", "none", "-o", "json"], "files": fl})
                 if rs.get("r") != "ok" or rp.get("r") != "ok":
@@ -148,7 +154,7 @@ def shard(ctx):
         for i, rt in enumerate(rules):
             fl["rules/r%d.guard" % i] = rt
         for j, dt in enumerate(dtexts):
-            fl["data/d%d.json" % j] = dt
+            fl["data/" + DN(j)] = dt
         orders = []
         ro, do = list(range(nr)), list(range(nd))
         for k in range(3 if ctx.quick else 5):
@@ -160,7 +166,7 @@ def shard(ctx):
         base_case = {"rules": rules, "data": dtexts}
         for (a, b) in orders:
             rargs = [x for i in a for x in ("-r", "{S}/rules/r%d.guard" % i)]
-            dargs = [x for j in b for x in ("-d", "{S}/data/d%d.json" % j)]
+            dargs = [x for j in b for x in ("-d", "{S}/data/" + DN(j))]
             # plain mode: one report per (rules, data), rules-major
             r = ctx.w.run({"k": "cli", "argv": ["validate"] + rargs + dargs + IT + ["-S", "none", "-o", "json"], "files": fl, "events": True})
             ctx.res.cases += 1
@@ -215,11 +221,11 @@ def shard(ctx):
         # ---- structured junit / sarif: what a batch says about one data file == what the stand-alone run of that file says
         a, b = orders[-1]
         rargs = [x for i in ro for x in ("-r", "{S}/rules/r%d.guard" % i)]
-        dargs = [x for j in b for x in ("-d", "{S}/data/d%d.json" % j)]
+        dargs = [x for j in b for x in ("-d", "{S}/data/" + DN(j))]
         for fmt in ("junit", "sarif"):
             singles = {}
             for j in do:
-                r1 = ctx.w.run({"k": "cli", "argv": ["validate"] + rargs + IT + ["-d", "{S}/data/d%d.json" % j, "--structured", "-S", "none", "-o", fmt], "files": fl})
+                r1 = ctx.w.run({"k": "cli", "argv": ["validate"] + rargs + IT + ["-d", "{S}/data/" + DN(j), "--structured", "-S", "none", "-o", fmt], "files": fl})
                 singles[j] = per_data_units(fmt, r1.get("out", "")) if r1.get("r") == "ok" else None
             r = ctx.w.run({"k": "cli", "argv": ["validate"] + rargs + dargs + IT + ["--structured", "-S", "none", "-o", fmt], "files": fl})
             ctx.res.cases += 1
@@ -248,7 +254,7 @@ def shard(ctx):
         perm = do[:]
         rng.shuffle(perm)
         for rank, j in enumerate(perm):
-            mt["data/d%d.json" % j] = 1000000 + rank * 100
+            mt["data/" + DN(j)] = 1000000 + rank * 100
         for flag in ("-a", "-m"):
             r = ctx.w.run({"k": "cli", "argv": ["validate", "-r", "{S}/rules", "-d", "{S}/data", flag, "-S", "none", "-o", "json"] + IT, "files": fl, "mtimes": mt})
             ctx.res.cases += 1
